@@ -7,7 +7,7 @@ import core
 
 def run(ctx):
     quick = ctx.tier == "quick"
-    ctx.rule = ("names: int2name(0..N) in blocks of 500 consecutive indices (N = 60 000 quick, 1 000 000 thorough), each block anchored at the spec's "
+    ctx.rule = ("names: int2name(0..N) in blocks of 500 consecutive indices (N = 1 000 000 in the thorough tier; quick: all of 0..60 000, the windows around the first 5-letter name and the end of the range, 40 seeded windows), each block anchored at the spec's "
                 "Name(i0) and chained by the shortlex successor; colours: all 22^3 three-digit codes with and without '#', every value of every "
                 "channel of six-digit codes in both cases, and seeded structured six-digit codes; distinct by input; non-trivial = every record")
     ctx.assumptions += ["the full 16.7 M six-digit sweep is not run: the conversion is channel-wise, every channel value and case is covered"]
@@ -15,6 +15,11 @@ def run(ctx):
               label="NameOrder / Increasing for every index; byte <-> hex digits bijection")
     maxi = 60000 if quick else 1000000
     blocks = [[i0, min(500, maxi + 1 - i0)] for i0 in range(0, maxi + 1, 500)]
+    if quick:
+        # the rest of the quantifier's range (to 10^6): the windows around the first 5-letter name, the very end, and seeded windows
+        import random
+        rng = random.Random(ctx.seed * 31 + 7)
+        blocks += [[475254 - 250, 500], [1000000 - 499, 500]] + [[rng.randrange(60001, 999500), 500] for _ in range(40)]
     jobs = []
     per = (len(blocks) + core.NCPU - 1) // core.NCPU
     for k in range(core.NCPU):
